@@ -54,6 +54,9 @@ UNIT = dict(
                  ("C01:plan_tail_only_after_whole_chain", "(ret.0.len() > 0 && ret.0@.last().is_tail) ==> ret.2 >= chain.len()"),
                  ("C03:plan_ranges_at_most_one_gib", "forall|k: int| 0 <= k < ret.0.len() ==> (#[trigger] ret.0[k]).start < ret.0[k].end && ret.0[k].end - ret.0[k].start <= 0x4000_0000 && ret.0[k].end <= 0x4000_0000"),
                  ("C02,C12:plan_marks_only_when_stateful", "info_guard is None ==> *final(globals) == *old(globals)"),
+                 ("C01:a_stateful_read_never_trims_its_first_entry", "start_offset is None ==> ret.1 == initial_trim_in"),
+                 ("C16,C11:every_planned_range_lies_in_a_wellformed_block", "forall|k: int| 0 <= k < ret.0.len() ==> wf_block((#[trigger] ret.0[k]).blk)"),
+                 ("C03:at_most_one_range_per_sealed_block_plus_the_tail", "ret.0.len() <= chain.len() - cur_idx_in + 1"),
              ],
              hints=[
                  dict(after="aligned_peek_meta.extend_from_slice(&meta_buf[2..2 + meta_len]);",
@@ -85,6 +88,7 @@ UNIT = dict(
                      ("", "plan.len() == 0 ==> packed_chain(chain@, cur_idx as int, cur_off)"),
                      ("", "plan.len() > 0 ==> planned_bytes > 0 && cur_off == 0"),
                      ("C03,C01:plan_first_range_covers_first_unconsumed_entry", "(start_offset is None && plan.len() > 0) ==> first_covers(plan[0])"),
+                     ("C16,C11:every_planned_range_lies_in_a_wellformed_block", "forall|k: int| 0 <= k < plan.len() ==> wf_block((#[trigger] plan[k]).blk)"),
                  ], decreases="chain.len() - cur_idx"),
                  1: dict(kind="while", invariant=[
                      ("", "bytes_well_formed()"), ("", "wf_block(active_block)"), ("", "written <= active_block.limit"),
